@@ -817,6 +817,9 @@ func replayFile(r *ev.Run, path string, merge func(*stats)) {
 		fc := &faultCluster{cluster: cl}
 		fc.arm(k.FailAlloc)
 		rn.exec(fc, k, origin, origin.Info())
+	} else if k.QueryFlipAt > 0 && k.QueryBase != nil {
+		qc := &queryCluster{cluster: cl}
+		runQueryFlip(rn, qc, *k.QueryBase, k.QueryFlip, k.QueryFlipAt, k, origin, origin.Info())
 	} else if k.FlipAt > 0 {
 		then, err := storeInfo(storeDesc{ID: k.FlipStore, State: k.FlipTo})
 		if err != nil {
@@ -828,7 +831,7 @@ func replayFile(r *ev.Run, path string, merge func(*stats)) {
 	} else {
 		rn.exec(cl, k, origin, origin.Info())
 	}
-	if (k.Family == "live-world" || (k.Family == famWorldChange && k.FlipAt == 0)) && len(rn.st.findings) == 0 {
+	if (k.Family == "live-world" || (k.Family == famWorldChange && k.FlipAt == 0 && k.QueryFlipAt == 0)) && len(rn.st.findings) == 0 {
 		r.Inconclusive("replay: the witness comes from a %s history (world changes / overlapping builds); the case alone did not reproduce it, see witness.case.history", k.Family)
 	}
 	rn.st.shapes["replay"] = struct{}{}
@@ -890,6 +893,7 @@ func main() {
 		livePhase(r, workers, merge)
 		concurrentPhase(r, merge)
 		flipPhase(r, workers, merge)
+		queryFlipPhase(r, workers, merge)
 		spellPhase(r, workers, merge)
 		r.Exhaustive(true)
 		r.Set("exhaustive_max_stores", r.Pick(4, 5))
